@@ -121,13 +121,23 @@ def main():
             solver_ms += o["ms"] or 0
             by_backend[o["backend"] or "none"] = by_backend.get(o["backend"] or "none", 0) + 1
 
+    base_path = os.path.join(VERIF, "baseline", "obligations.json")
+    baseline = json.load(open(base_path)) if os.path.exists(base_path) else {}
+    base_prop = baseline.get(prop, {"clauses": [], "sha": {}})
+    sha_now = {cid: results[cid].get("sha") for cid in cids if results[cid].get("ok")}
     discharged = 0
     failed_clauses = []
     for oid, obs in clauses.items():
         vs = [o["verdict"] for o in obs]
+        cid = oid.split(":")[0]
         if all(v == "unsat" for v in vs):
             discharged += 1
         elif any(v == "sat" for v in vs):
+            failed_clauses.append((oid, obs))
+        elif any(v == "unknown" for v in vs) and oid in base_prop["clauses"] \
+                and base_prop["sha"].get(cid) not in (None, sha_now.get(cid)):
+            # the obligation was discharged for the baseline source and can no longer be discharged for the CHANGED source of
+            # this function: the change broke the proof.  Reported as a violation without a failing input (DESIGN 2.6).
             failed_clauses.append((oid, obs))
         else:
             why = "; ".join(sorted({(o.get("detail") or o["verdict"])[:120] for o in obs if o["verdict"] != "unsat"}))
@@ -167,7 +177,7 @@ def main():
     for oid, obs in failed_clauses:
         cid = oid.split(":")[0]
         ct = C.CONTRACTS[cid]
-        sat_obs = [o for o in obs if o["verdict"] == "sat"]
+        sat_obs = [o for o in obs if o["verdict"] == "sat"] or [o for o in obs if o["verdict"] != "unsat"]
         concrete = None
         # (1) replay the model's inputs on the real function
         for o in sat_obs:
@@ -228,9 +238,7 @@ def main():
             bounded += rt_info.get("bounded", [])
 
     # ---- baseline: fewer obligations than the committed baseline is a checker fault
-    base_path = os.path.join(VERIF, "baseline", "obligations.json")
-    baseline = json.load(open(base_path)) if os.path.exists(base_path) else {}
-    missing = [c for c in baseline.get(prop, []) if c not in clauses]
+    missing = [c for c in base_prop["clauses"] if c not in clauses]
     if missing and not faults and not undecided:
         undecided.append(f"{len(missing)} baseline obligations not generated: {missing[:4]}")
 
